@@ -265,6 +265,23 @@ func (r *run) client(id int) {
 			p = newPlan(tok, sizeOf(&rnd), sizeOf(&rnd), time.Duration(rnd.n(30))*time.Millisecond)
 			r.ups[proto].add(p)
 		}
+		if bc, ok := conn.(*bconn); ok && ka && !isDesig && id != 0 && r.splitNow() {
+			// hot upgrade in progress: the kept-alive bolt client keeps two requests outstanding (see doPair)
+			pa := newPlan(fmt.Sprintf("k%d-c%d-%da", r.no, id, seq), sizeOf(&rnd), sizeOf(&rnd), time.Duration(25+rnd.n(60))*time.Millisecond)
+			r.ups[proto].add(pa)
+			ra := &result{Client: id, Seq: seq, Proto: proto, Token: pa.Token, KeepAlive: ka, StartMs: r.ms(), ReqSize: pa.ReqSize, RespSize: pa.RespSize, plan: pa, Paired: true}
+			rb := &result{Client: id, Seq: seq, Proto: proto, Token: p.Token, KeepAlive: ka, StartMs: r.ms(), ReqSize: p.ReqSize, RespSize: p.RespSize, plan: p, Paired: true}
+			bc.doPair(pa, p, ra, rb)
+			ra.EndMs, rb.EndMs = r.ms(), r.ms()
+			r.record(ra)
+			r.record(rb)
+			seq++
+			if !ra.ok() || !rb.ok() {
+				conn.close()
+				conn = nil
+			}
+			continue
+		}
 		res := &result{Client: id, Seq: seq, Proto: proto, Token: p.Token, Desig: isDesig, KeepAlive: ka, StartMs: r.ms(), ReqSize: p.ReqSize, RespSize: p.RespSize, plan: p}
 		conn.do(p, h, res)
 		res.EndMs = r.ms()
@@ -330,8 +347,7 @@ func sizeOf(rnd *xs) int {
 	}
 }
 
-// prober opens a fresh connection every few ms. SIGHUP cases also send a small request on it (new
-// connections must be served throughout); SIGTERM cases only look at the connect result.
+// prober opens (and closes) a fresh connection to one of the listeners every few ms and records the connect result.
 func (r *run) prober() {
 	defer r.wg.Done()
 	n := 0
